@@ -192,6 +192,7 @@ class Reservoir(Filter[Iterable[Any], Sequence[Any]]):
 
                 try:
                     for r1,r2,r3 in batched_randoms_forever(20):
+                        if r1 == 0 or r2 == 0: continue #degenerate draws (log(0), log base 1) are skipped
                         W = W*r1**x
                         S = floor(log(r2,1-W))
                         reservoir[int(r3*count)] = next(islice(items,S,S+1))
